@@ -8,6 +8,7 @@ import (
 	"sort"
 	"strconv"
 	"strings"
+	"sync"
 	"time"
 
 	"github.com/bilibili/gengine/builder"
@@ -98,6 +99,16 @@ type evalCase struct {
 	Rules []evalRule `json:"rules"`
 	Text  string     `json:"text"`
 	Build string     `json:"build,omitempty"`
+	Probe *concProbe `json:"probe,omitempty"`
+	Incr  bool       `json:"incr,omitempty"` // compiled with BuildRuleWithIncremental
+}
+
+// concurrent executions of one rule entity (C15): each must return its own tick
+type concProbe struct {
+	K    int      `json:"k"`
+	Text string   `json:"text"`
+	Got  []string `json:"got"`
+	Want []string `json:"want"`
 }
 
 var citeRe = regexp.MustCompile(`line (\d+), column`)
@@ -160,12 +171,28 @@ func genEvalCase(r *rng, i int, mode string) (*evalCase, *hostEnv) {
 	if mode == "lines" || r.chance(1, 4) {
 		nrules = 1 + r.intn(3)
 	}
+	if mode == "locals" {
+		nrules = 2 + r.intn(3)
+		c.Probe = &concProbe{K: 2 + r.intn(5)}
+	}
 	w := &renderer{r: r, line: 1, multi: mode == "lines" || r.chance(1, 5)}
+	if mode == "lines" {
+		c.Incr = r.chance(1, 2)
+		for k, n := 0, r.intn(4); k < n; k++ {
+			w.nl() // the text starts with blank lines
+		}
+	}
 	names := []string{"r1", "42", "7x", "rule_b", "100"}
 	perm := r.perm(len(names))
 	for k := 0; k < nrules; k++ {
 		g := &egen{r: r, locals: map[string]string{}}
 		switch mode {
+		case "conc":
+			g.illP = 4
+			g.concP = 35
+			if r.chance(1, 3) {
+				g.illP = 80
+			}
 		case "ill":
 			g.illP = 120
 		case "expr":
@@ -181,6 +208,16 @@ func genEvalCase(r *rng, i int, mode string) (*evalCase, *hostEnv) {
 			hdr.Sal = int64(r.intn(200)) - 50
 		}
 		var body *RBlock
+		if mode == "locals" {
+			body = genLocalsRule(r, g, k)
+			w.rule(hdr, body)
+			c.Rules = append(c.Rules, evalRule{Hdr: hdr, Body: body})
+			if r.chance(1, 2) {
+				// the same rule once more: a later execution starts from undefined locals again
+				c.Rules = append(c.Rules, evalRule{Hdr: hdr, Body: body})
+			}
+			continue
+		}
 		if mode == "expr" {
 			e, _ := g.anyExpr(2 + r.intn(4))
 			if r.chance(1, 5) {
@@ -200,6 +237,98 @@ func genEvalCase(r *rng, i int, mode string) (*evalCase, *hostEnv) {
 	return c, h
 }
 
+// rules of the locals mode: locals assigned at some nesting depth (or not at all) under a
+// condition that depends on injected state the rule itself flips, then read at top level
+func genLocalsRule(r *rng, g *egen, k int) *RBlock {
+	v := func(n string) *RE { return &RE{Op: "var", Sym: n} }
+	asg := func(t string, e *RE) *RS { return &RS{Op: "assign", Sym: "=", Tgt: v(t), E: e} }
+	name := localNames[r.intn(len(localNames))]
+	b := &RBlock{}
+	switch r.intn(5) {
+	case 0:
+		// assign only while p_bool holds, then clear p_bool: the next execution must not see the local
+		inner := &RBlock{Stmts: []*RS{asg(name, lit("int64", strconv.Itoa(10+k)))}}
+		if r.chance(1, 2) {
+			inner = &RBlock{Stmts: []*RS{{Op: "if", E: lit("bool", "true"), Body: inner}}}
+		}
+		b.Stmts = append(b.Stmts, &RS{Op: "if", E: v("p_bool"), Body: inner}, asg("p_bool", lit("bool", "false")))
+		b.HasRet, b.Ret = true, v(name)
+	case 1:
+		// plain definition at top level, visible to this rule only
+		b.Stmts = append(b.Stmts, asg(name, lit("int64", strconv.Itoa(20+k))), &RS{Op: "call", E: &RE{Op: "call", Kind: "func", Sym: "obs", Args: []*RE{v(name)}}})
+		b.HasRet, b.Ret = true, v(name)
+	case 2:
+		// reads a local it never assigned
+		b.HasRet, b.Ret = true, mkBin("ar", "+", v(name), lit("int64", "1"))
+	case 3:
+		// a local whose name gets injected while the rule runs: the injected object wins from then on
+		b.Stmts = append(b.Stmts, asg("late", lit("int64", "1")), &RS{Op: "call", E: &RE{Op: "call", Kind: "func", Sym: "inj"}})
+		if r.chance(1, 2) {
+			b.Stmts = append(b.Stmts, asg(name, v("late")))
+			b.HasRet, b.Ret = true, v(name)
+		} else {
+			b.HasRet, b.Ret = true, v("late")
+		}
+	default:
+		// defined inside a loop / else branch, read after it
+		inner := &RBlock{Stmts: []*RS{asg(name, mkBin("ar", "+", v("i"), lit("int64", strconv.Itoa(k))))}}
+		init := asg("i", lit("int64", "0"))
+		step := &RS{Op: "assign", Sym: "+=", Tgt: v("i"), E: lit("int64", "1")}
+		b.Stmts = append(b.Stmts, &RS{Op: "for", Init: init, E: mkBin("cmp", "<", v("i"), lit("int64", "2")), Step: step, Body: inner})
+		b.HasRet, b.Ret = true, mkBin("ar", "*", v(name), v("i"))
+	}
+	return b
+}
+
+// K concurrent executions of one rule entity, synchronised by a barrier after the assignment
+func runConcProbe(c *evalCase, h *hostEnv) {
+	p := c.Probe
+	nest := c.I%2 == 0
+	asg := " cx = tick()\n"
+	if nest {
+		asg = " if true {\n  cx = tick()\n }\n"
+	}
+	p.Text = "rule \"cc\" begin\n" + asg + " sync()\n return cx\nend\n"
+	dc := context.NewDataContext()
+	h.mu.Lock()
+	h.tickN, h.syncN, h.syncArr, h.syncCh = 0, p.K, 0, make(chan struct{})
+	h.mu.Unlock()
+	dc.Add("tick", h.funcValue("tick"))
+	dc.Add("sync", h.funcValue("sync"))
+	rb := builder.NewRuleBuilder(dc)
+	if err := rb.BuildRuleFromString(p.Text); err != nil {
+		p.Got = []string{"build: " + err.Error()}
+		return
+	}
+	re := rb.Kc.RuleEntities["cc"]
+	res := make([]string, p.K)
+	var wg sync.WaitGroup
+	for i := 0; i < p.K; i++ {
+		wg.Add(1)
+		go func(i int) {
+			defer wg.Done()
+			defer func() {
+				if x := recover(); x != nil {
+					res[i] = fmt.Sprint("panic: ", x)
+				}
+			}()
+			v, e, _ := re.Execute(dc)
+			if e != nil {
+				res[i] = "err: " + e.Error()
+			} else {
+				res[i] = fmt.Sprint(v)
+			}
+		}(i)
+	}
+	wg.Wait()
+	sortStrings(res)
+	p.Got = res
+	for i := 1; i <= p.K; i++ {
+		p.Want = append(p.Want, strconv.Itoa(i))
+	}
+	sortStrings(p.Want)
+}
+
 func atExpr(r *rng) *RE {
 	switch r.intn(4) {
 	case 0:
@@ -214,7 +343,12 @@ func atExpr(r *rng) *RE {
 }
 
 func runEvalCase(c *evalCase, h *hostEnv) {
+	if c.Probe != nil {
+		runConcProbe(c, h)
+	}
 	dc := context.NewDataContext()
+	h.dc = dc
+	curHost = h
 	for name, o := range h.objs {
 		dc.Add(name, o)
 	}
@@ -226,7 +360,11 @@ func runEvalCase(c *evalCase, h *hostEnv) {
 				buildErr = fmt.Errorf("panic: %v", p)
 			}
 		}()
-		buildErr = rb.BuildRuleFromString(c.Text)
+		if c.Incr {
+			buildErr = rb.BuildRuleWithIncremental(c.Text)
+		} else {
+			buildErr = rb.BuildRuleFromString(c.Text)
+		}
 	}()
 	if buildErr != nil {
 		c.Build = buildErr.Error()
